@@ -1074,7 +1074,44 @@ func emitAccept(cw *caseWriter, ti []colDesc, line []byte, nontrivial bool) {
 		fmt.Sprintf("%s rownil=%d agree=%d next=%d", impl, rownil, ag, next), fmt.Sprintf("govalid=%d", gv))
 }
 
+// emitFaultAccept: the reader delivers only `line[:cut]` and then fails. Whatever the fragment looks like —
+// even a complete object — it is not a line of the input: nothing may be accepted from it.
+//
+//	faultaccept \t C16 \t <hex line> \t <cut> \t <how: sep | with> \t <impl: ok | err <class> | none>
+func emitFaultAccept(cw *caseWriter, line []byte, cut int, with bool) {
+	ev := []readEv{{kind: "d", data: line[:cut]}, {kind: "e"}}
+	how := "sep"
+	if with {
+		ev = []readEv{{kind: "de", data: line[:cut]}}
+		how = "with"
+	}
+	impl := "none"
+	pan := guard(func() {
+		imp := jsonline.NewImporter(&scriptReader{evs: ev})
+		for imp.Import() {
+			row, err := imp.GetRow()
+			if err == nil && row != nil {
+				impl = "ok"
+				return
+			}
+			impl = "err " + classify(err)
+		}
+	})
+	if pan != "" {
+		impl = "panic " + strings.ReplaceAll(strings.ReplaceAll(pan, "\t", " "), "\n", " ")
+	}
+	cw.count("faultaccept:" + strings.SplitN(impl, " ", 2)[0])
+	cw.emit(fmt.Sprintf("faultaccept %s %d %s", line, cut, how), true, "faultaccept", "C16", hxs(string(line)), fmt.Sprintf("%d", cut), how, impl)
+}
+
 func genC16(cw *caseWriter, seed uint64, tier string) {
+	// a read failure in the middle of a line: every cut of lines that start with a complete object
+	for _, l := range []string{`{"id":2}{"id":3}`, `{"a":1} x`, `{"a":1}}`, `{}{}`, `{"a":{"b":1}}]`, `{"a":1}`, `{"a":1,"b":2}`, ` {"a":1} `, `{"a":"x"}1`} {
+		for cut := 1; cut <= len(l); cut++ {
+			emitFaultAccept(cw, []byte(l), cut, false)
+			emitFaultAccept(cw, []byte(l), cut, true)
+		}
+	}
 	r := newRng(seed)
 	g := &jgen{r: r, depth: 3}
 	hand := []string{``, ` `, `{}`, ` {} `, `{} x`, `{}{}`, `{}[]`, `{},`, `[{}]`, `[1]`, `1`, `"x"`, `null`, `true`, `{`, `}`, `{"a"`, `{"a":`, `{"a":1`, `{"a":1,`, `{"a":1,}`, `{,}`, `{"a" 1}`, `{"a":1 "b":2}`,
